@@ -194,6 +194,12 @@ class SimT(SimBase):
             # an application may greet the client from its connect handler
             if self.cfg.get('connect_send'):
                 self.server.send(sid, self.cfg['connect_send'])
+            # ... and may take a while (authentication look-up)
+            dt = self.suspend.get('connect')
+            if dt:
+                self.events.append({'clk': self.tick(), 't': self.now,
+                                    'ev': 'connect-entered', 'sid': sid})
+                vsched.vsleep(self.sched, dt)
             return self._h_connect(sid, environ)
         def pause(ev):
             dt = self.suspend.get(ev)
